@@ -20,6 +20,14 @@ func init() {
 		Stub: []string{"balancer.ClientConn / SubConn (recording fake; connections succeed at once, health READY is reported as the real channel does without health checking)", "ORCA server: scripted stream behind the fake SubConn's producer ClientConnInterface", "the channel: the run's root goroutine makes every call into the policy", "RPCs: Pick + Done(ServerLoad) from the root goroutine and from bursts of picker goroutines", "clock (synctest)", "goroutine scheduler (detrt)"}}).doc(
 		"TODO", "TODO", "TODO"))
 
+	regWorld(&World{Name: "wlcrh", Pkg: "google.golang.org/grpc/balancer/ringhash",
+		Mounts:  map[string]string{"balancer/ringhash": "sim/wlcrh"},
+		Rewrite: []string{"balancer/endpointsharding/endpointsharding.go"}})
+	regProp("C37", (&Prop{World: "wlcrh", QuickRuns: 60000, QuickSecs: 22, ThoroughRuns: 2000000, ThoroughSecs: 420, Batch: 200, RunTimeoutS: 30, PanicIsViolation: true,
+		Real: []string{"balancer/ringhash (ringhash.go, ring.go, picker.go) built through its registered balancer.Builder", "balancer/endpointsharding, balancer/lazy and balancer/pickfirst children underneath"},
+		Stub: []string{"balancer.ClientConn / SubConn (recording fake; connection attempts end as scripted per endpoint: ok / fail / hang)", "the channel: the run's root goroutine makes every call into the policy and delivers subchannel states", "RPCs: Pick from the root goroutine and from bursts of picker goroutines", "the picker's random source (randUint64 field of every published picker is set by the harness)", "clock (synctest)", "goroutine scheduler (detrt)"}}).doc(
+		"TODO", "TODO", "TODO"))
+
 	regWorld(&World{Name: "wlcrls", Pkg: "google.golang.org/grpc/balancer/rls",
 		Mounts: map[string]string{"balancer/rls": "sim/wlcrls"}})
 
